@@ -162,7 +162,8 @@ class ODataLexer(Lexer):
     @_(_DATE + r"T" + _TIME + r"?(Z|[+-](?:[01]\d|2[0-3]):[0-5]\d)?")
     def DATETIME(self, t):
         ":meta private:"
-        t.value = ast.DateTime(t.value)
+        # The `T` and `Z` designators are case insensitive, normalize them:
+        t.value = ast.DateTime(t.value.upper())
         return t
 
     @_(_DATE)
